@@ -6,7 +6,7 @@ import random
 from .hycore import T, lit, V_NONE, V_TRUE, V_FALSE, V_INT, sites_of, cms_of
 
 LITS = [V_NONE, V_TRUE, V_FALSE, V_INT(0), V_INT(1), V_INT(2), ["list", 0, []],
-        ["list", 0, [V_INT(1), V_INT(2)]], ["str", 0, []], ["str", 1, []]]
+        ["list", 0, [V_INT(1), V_INT(2)]], ["str", 0, []], ["str", 1, []], ["str", 2, []], ["str", 3, []]]
 SCRIPT_POOL = [V_NONE, V_TRUE, V_FALSE, V_INT(0), V_INT(1), V_INT(2), V_INT(3), ["list", 0, []],
                ["list", 0, [V_INT(1)]], ["list", 0, [V_INT(1), V_INT(2)]], ["str", 0, []], ["str", 1, []]]
 FALSY = [V_NONE, V_FALSE, V_INT(0), ["list", 0, []], ["str", 0, []]]
